@@ -547,6 +547,21 @@ def run(ctx, prop):
             fails[k] = shrink(prop, sim_fails[0], work)
 
     def search():
+        # 1. every directed schedule of the three raft corpora (the own one was replayed above), judged for THIS property
+        others = [f for f in sorted(glob.glob(os.path.join(vlib.VERIF, "corpus", "C0[123]", "*.json"))) if f not in scen_files]
+        if others:
+            rc, out, summ, _ = run_raftsim("-mode replay " + " ".join(others), os.path.join(work, "search-corpus"), timeout=left(120))
+            fs = collect_failures(prop, summ) if summ else []
+            if fs:
+                return fs
+        # 2. the generator profiles that reach the rarer schedule classes, then the general mix
+        for extra in ("-profile lagsnap", "-profile conf", "-profile paging"):
+            rc, out, summ, dt = run_raftsim("-mode sim -seed %d -n %d -events %d %s" % (ctx.seed + 1000003, 120 if quick else 400, 1200, extra),
+                                            os.path.join(work, "search"), timeout=left(120))
+            fs = collect_failures(prop, summ) if summ else []
+            if fs:
+                fs[0] = shrink(prop, fs[0], work)
+                return fs
         dd = os.path.join(work, "search")
         rc, out, summ, dt = run_raftsim("-mode sim -seed %d -n %d -events %d" % (ctx.seed + 1000003, 400 if quick else 1500, 1500), dd, timeout=left(240))
         if not summ:
